@@ -210,6 +210,39 @@ where
     if gotk != want.iter().map(|x| x.0.clone()).collect::<Vec<_>>() {
         return Err(Fail::new("search-mismatch", format!("Set::search({}){} differs from the accepted in-range keys", what, oracle::bounds_show(bounds))));
     }
+    // ... and their search_with_state, which have bound setters of their own
+    {
+        let mut s = oracle::apply_map_state(m.search_with_state(aut), bounds).into_stream();
+        let mut i = 0;
+        while let Some((k, v, stt)) = s.next() {
+            if i >= want.len() || k != &want[i].0[..] || v != want[i].1 || !same(&stt, &want_states[i]) {
+                return Err(Fail::new(
+                    "search-state-mismatch",
+                    format!("Map::search_with_state({}){} item {} is {}={} (or carries a wrong state) but expected {}; keys {}", what, oracle::bounds_show(bounds), i, show(k), v,
+                        want.get(i).map(|w| format!("{}={}", show(&w.0), w.1)).unwrap_or("end of stream".into()), oracle::keys_show(pairs)),
+                ));
+            }
+            i += 1;
+        }
+        if i != want.len() {
+            return Err(Fail::new("search-state-mismatch", format!("Map::search_with_state({}){} yields {} items, expected {}; keys {}", what, oracle::bounds_show(bounds), i, want.len(), oracle::keys_show(pairs))));
+        }
+        let mut s = oracle::apply_set_state(st.search_with_state(aut), bounds).into_stream();
+        let mut i = 0;
+        while let Some((k, stt)) = s.next() {
+            if i >= want.len() || k != &want[i].0[..] || !same(&stt, &want_states[i]) {
+                return Err(Fail::new(
+                    "search-state-mismatch",
+                    format!("Set::search_with_state({}){} item {} is {} (or carries a wrong state) but expected {}; keys {}", what, oracle::bounds_show(bounds), i, show(k),
+                        want.get(i).map(|w| show(&w.0)).unwrap_or("end of stream".into()), oracle::keys_show(pairs)),
+                ));
+            }
+            i += 1;
+        }
+        if i != want.len() {
+            return Err(Fail::new("search-state-mismatch", format!("Set::search_with_state({}){} yields {} items, expected {}; keys {}", what, oracle::bounds_show(bounds), i, want.len(), oracle::keys_show(pairs))));
+        }
+    }
     Ok(SearchStats { matched: want.len(), in_range, pruned })
 }
 
